@@ -90,5 +90,7 @@ class ProductStructureKernel(Kernel):
         kernel matrix.
         """
         res = super().__call__(x1_, x2_, diag=diag, last_dim_is_batch=last_dim_is_batch, **params)
+        if diag:
+            return res
         res = to_linear_operator(res).evaluate_kernel()
         return res
